@@ -170,6 +170,7 @@ JsonMutations ==
    "rename:rows", "rename:columns", "rename:shape", "rename:data", "rename:type", "rename:matrix_element_type",
    "shape:rows+1", "shape:rows-1", "shape:cols+1", "shape:cols-1",
    "coord:row_out", "coord:col_out", "coord:negative", "coord:index_text", "coord:value_text", "coord:malformed",
+   "coord:col_index_float", "coord:row_index_float", "coord:col_index_text",
    "ids:dup_row", "ids:dup_col", "ids:blank_row", "ids:blank_col", "ids:del_row_id", "ids:del_col_md",
    "md:row_text", "md:col_list", "md:row_number",
    "type:matrix_dense", "type:element_int", "type:element_unicode", "type:element_bogus",
